@@ -68,6 +68,14 @@ impl Allocation {
 impl Drop for Allocation {
     #[track_caller]
     fn drop(&mut self) {
+        // When the model is failing the execution may not be reachable any
+        // more: e.g. a leak report unwinds through the `Execution` that owns
+        // the allocations made with `alloc`, outside of any modeled thread.
+        // Bookkeeping no longer matters then, and panicking again would abort.
+        if std::thread::panicking() {
+            return;
+        }
+
         let location = location!();
         rt::execution(|execution| {
             let state = self.state.get_mut(&mut execution.objects);
